@@ -325,7 +325,7 @@ func ruleOpSiblings(c *Ctx, r *Report, prefix string) {
 		}
 		var extra []string
 		for _, fn := range c.ModFuncs("lzma") {
-			for _, b := range fn.Blocks {
+			for _, b := range theCtx.GB(fn) {
 				for _, ins := range b.Instrs {
 					st, ok := ins.(*ssa.Store)
 					if !ok {
